@@ -4,7 +4,8 @@ from vf.props.common import *
 def spec(tier):
     th = tier == "thorough"
     obs = []
-    R = 24 if th else 12
+    R = 12          # all-symbolic sizes (cubic score comparisons): beyond ~12 z3 starts answering unknown on some paths
+    RB = 24         # memory range when the allocations are concrete
     for n in (2, 3):
         for dur0 in (3, 1):
             sym = dict(cap=I(1, 2 * R))
@@ -29,9 +30,15 @@ def spec(tier):
         for ri, rs in enumerate(((10, 10, 10, 10), (5, 10, 20, 24), (24, 12, 6, 3), (8, 8, 16, 16), (3, 7, 11, 13))):
             for dur0 in (3, 1):
                 for (lo, hi) in ((1, 16), (17, 32), (33, 48)):
-                    sym = dict(cap=I(lo, hi), m0=I(0, R), m1=I(0, R), m2=I(0, R), m3=I(0, R))
+                    sym = dict(cap=I(lo, hi), m0=I(0, RB), m1=I(0, RB), m2=I(0, RB), m3=I(0, RB))
                     fixed = dict(n=4, dur0=dur0, r0=rs[0], r1=rs[1], r2=rs[2], r3=rs[3])
                     obs.append(CH(name=f"killer_n4_r{ri}_d{dur0}_cap{lo}", harness="c11.oom_killer", sym=sym, fixed=fixed, timeout=2400))
+    if th:
+        for ri, rs in enumerate(((12, 12, 12), (6, 12, 24), (24, 8, 3))):
+            for dur0 in (3, 1):
+                sym = dict(cap=I(1, 60), m0=I(0, RB), m1=I(0, RB), m2=I(0, RB))
+                obs.append(CH(name=f"killer_n3_r{ri}_d{dur0}", harness="c11.oom_killer", sym=sym,
+                              fixed=dict(n=3, dur0=dur0, r0=rs[0], r1=rs[1], r2=rs[2], m3=0, r3=1), timeout=2400))
     tsym = dict(cap=I(1, 24), m0=I(0, 12), r0=I(1, 12), m1=I(0, 12), r1=I(1, 12), m2=I(0, 12), r2=I(1, 12))
     tfix = dict(n=3, dur0=3, m3=0, r3=1)
     for w in ("two_victims", "one_victim", "tie", "over_and_pool"):
@@ -41,7 +48,7 @@ def spec(tier):
         functions=["ResourcePool._run_out_of_memory_killer", "ResourcePool.run_one_tick", "Container.kill", "Container._mark_completed",
                    "Container.set_current_memory_usage"],
         bounds={"containers": "2..3 (all sizes symbolic)" + (" + 4 (five concrete allocation tuples, memory and capacity symbolic)" if th else ""),
-                "memory_and_allocation_gb": f"0..{R}", "capacity": f"1..{2*R}"},
+                "memory_and_allocation_gb": f"0..{R} (0..{RB} with concrete allocations)", "capacity": f"1..{2*R} (..60)"},
         outside=["more than 4 containers", "non-integral sizes (scores of integral sizes differ by >= 1e-3 relative, far above binary64 rounding)",
                  "growing-memory profiles crossing capacity at fractional ticks (per-tick demand comes from C05's model)"],
         assumptions=A_ASSUME + ["scores are compared cross-multiplied (m_i^2 r_j > m_j^2 r_i) in the harness; the code's m*(m/r) runs under M1"],
